@@ -326,8 +326,8 @@ func stackBurst(c *vlib.Cases, r *vlib.Rng, engine string, n int, prefix, epType
 				js = true
 				model, body = mkAnthropicBody(rr, i, size)
 			}
-			if size > 1<<20 || len(body) > 1<<20 {
-				model = "" // beyond the inspector's peek window the model is not extracted
+			if (size > 1<<20 || len(body) > 1<<20) && !anthPT {
+				model = "" // beyond the inspector's peek window the model is not extracted (the Anthropic route parses the whole body)
 			}
 			method := "POST"
 			if rr.Chance(1, 10) {
